@@ -666,8 +666,37 @@ def observe_extract_surface(fd):
     return out
 
 
+NAN = 'nan'     # token of a NaN cell in the id-keyed views (values are exact rationals otherwise); oracle-only streams
+
+
 def row_of(x):
-    return [F(float(v)) for v in np.asarray(x, dtype=float).ravel()]
+    return [NAN if v != v else F(float(v)) for v in np.asarray(x, dtype=float).ravel()]
+
+
+def nanify(rnd, vs):
+    """round 6 (seeded C09-11): a copy of the variables in which float64 variables hold NaN cells - whole rows (a value that
+    is NaN in EVERY component is still a value of that node / element: the row must stay), single cells, first / last row"""
+    import copy
+    vs = copy.deepcopy(vs)
+
+    def holes(rows):
+        n = len(rows)
+        if not n or not rows[0]:
+            return
+        k = len(rows[0])
+        for j in {0, n - 1, rnd.randrange(n)} if rnd.random() < .7 else {rnd.randrange(n)}:
+            rows[j][:] = [NAN] * k
+        for _ in range(rnd.randint(0, 2)):
+            rows[rnd.randrange(n)][rnd.randrange(k)] = NAN
+    for v in vs['nodal']:
+        if 'dtype' not in v and rnd.random() < .8:
+            holes(v['rows'])
+    for v in vs['elemental']:
+        if 'dtype' not in v and rnd.random() < .8:
+            for b in v['blocks'].values():
+                holes([r for _, r in b])
+    vs['nan'] = True
+    return vs
 
 
 def observe(fd):
@@ -1209,6 +1238,9 @@ def one_mesh(ctx, rnd, pending, misaligned=False):
         if rnd.random() < .8:
             m3, vs3 = renumber_elements(rnd, m3, vs3)
         ctx.count('signed:ids:' + str(m3['id_style']) + '/' + str(m3.get('eid_style', 'elements-unchanged')))
+        if rnd.random() < .6:
+            vs3 = nanify(rnd, vs3)
+            ctx.count('signed:variables with NaN rows / cells')
         for op in OPS:
             style, sel = inside(rnd, m3, op)
             eval_case(ctx, m3, vs3, op, style, sel, 'signed')
@@ -1301,9 +1333,9 @@ def replay(ctx, obj):
     m = G.from_json(case['mesh'])
     vs = case['vars']
     for v in vs['nodal']:
-        v['rows'] = [[F(x) for x in r] for r in v['rows']]
+        v['rows'] = [[NAN if x == NAN else F(x) for x in r] for r in v['rows']]
     for v in vs['elemental']:
-        v['blocks'] = {t: [[e, [F(x) for x in r]] for e, r in b] for t, b in v['blocks'].items()}
+        v['blocks'] = {t: [[e, [NAN if x == NAN else F(x) for x in r]] for e, r in b] for t, b in v['blocks'].items()}
     op, sel = case['op'], case['selection']
     prefix = case.get('prefix')
     if prefix:
